@@ -193,6 +193,16 @@ theorem iflet_scope_exits_before_else (p g e1 : Node α) (st : St α) (s : Scope
   rw [run_append]
   exact (scope_restores (bal_append (visit_bal p 0) (visit_bal e1 0)) .discard 0 _ s rest h hw).1
 
+/-- non-vacuity: `if let p = x { p } else { p }` — the else mention is unresolved, a re-binding in
+the else part does not collide -/
+example : (run (visit (.mk .ifGuard none 0 [.mk .pId (some 1) 10 [], .mk .seq none 0 [],
+      .mk .block none 20 [.mk .var (some 1) 11 []], .mk .block none 21 [.mk .var (some 1) 12 []]])) (init : St Nat)).unbound = [1] := by
+  decide
+example : (run (visit (.mk .ifGuard none 0 [.mk .pId (some 1) 10 [], .mk .seq none 0 [],
+      .mk .block none 20 [.mk .var (some 1) 11 []],
+      .mk .block none 21 [.mk .decl none 0 [.mk .pId (some 1) 13 [], .mk .none none 0 [], .mk .seq none 0 []]]])) (init : St Nat)).errors = [] := by
+  decide
+
 /-- the model's `if let` has exactly that shape -/
 theorem visit_ifGuard_shape (p g e1 e2 : Node α) (loc : Nat) :
     visit (.mk .ifGuard none loc [p, g, e1, e2])
